@@ -596,10 +596,15 @@ def check_ambient(inp):
     r = probe.run_probe(inp["items"])
     if "error" in r or not r.get("import_ok"):
         raise runner.HarnessError("probe failed: %r" % (r.get("error") or r.get("import_error")))
+    fails = []
     d = ambient_diff(r)
     if d:
-        return [failure("process-global state as before the import", d, note="after importing cvss and evaluating %d item(s) in a fresh process" % len(inp["items"]))]
-    return []
+        fails.append(failure("process-global state as before the import", d, note="after importing cvss and evaluating %d item(s) in a fresh process" % len(inp["items"])))
+    if all(it[0] in ("ctor", "rh", "text") for it in inp["items"]) and (r.get("stderr") or "").strip():
+        # importing the package (no cached bytecode) and calling the API wrote to the real stderr of a fresh process
+        fails.append(failure("nothing written to stderr outside the CLI and interactive entry points", r["stderr"][-300:],
+                             note="fresh process (PYTHONDONTWRITEBYTECODE=1) importing cvss, cvss.parser, ... and evaluating API items"))
+    return fails
 
 
 def run(tier, t0):
@@ -617,13 +622,13 @@ def run(tier, t0):
         part.count(None, classes=("ambient-in-fresh-process",))
         part.nontrivial_count += 1
         part.check("ambient", check_ambient, {"items": items})
-    part.merge(runner.hyp_shards("vf.props.c19", "history_part", 320 if q else 8000, args=(20 if q else 40, baseline)))
-    part.merge(runner.hyp_shards("vf.props.c19", "schedule_part", 800 if q else 32000))
-    for p in runner.parallel("vf.props.c19", "stress_part", [(s, 1200 if q else 20000, runner.SEED) for s in range(4)]):
+    part.merge(runner.hyp_shards("vf.props.c19", "history_part", 320 if q else 4000, args=(20 if q else 40, baseline)))
+    part.merge(runner.hyp_shards("vf.props.c19", "schedule_part", 800 if q else 16000))
+    for p in runner.parallel("vf.props.c19", "stress_part", [(s, 1200 if q else 10000, runner.SEED) for s in range(4)]):
         part.merge(p)
-    for p in runner.parallel("vf.props.c19", "hashseed_part", [(s, 150 if q else 1500, runner.SEED) for s in range(runner.NPROC if not q else 8)]):
+    for p in runner.parallel("vf.props.c19", "hashseed_part", [(s, 150 if q else 800, runner.SEED) for s in range(runner.NPROC if not q else 8)]):
         part.merge(p)
-    for p in runner.parallel("vf.props.c19", "decimal_part", [(i, 1500 if q else 30000, runner.SEED) for i in range(len(PRECS) * len(ROUNDINGS))]):
+    for p in runner.parallel("vf.props.c19", "decimal_part", [(i, 1500 if q else 15000, runner.SEED) for i in range(len(PRECS) * len(ROUNDINGS))]):
         part.merge(p)
     rule = ("(1) histories: state-machine sequences of API calls (valid/invalid constructions of every version, RH ok/mismatch/"
             "malformed, text extraction, interactive runs, in-process CLI runs), probe + global-state snapshot after every step, "
